@@ -72,6 +72,18 @@ def gen_case(rng, tier):
             steps.append(["reopen", fd, how, realrun.b64(more)])
             (o1 if fd == 1 else o2).append(more)
             reopened = True
+        if rng.random() < 0.15:
+            # the command leaves its own entry under the name of a record (a warm start that copies the previous
+            # version into $COND_OUT, a tool that dumps its arguments as args.json, `mkdir options.json`): the records
+            # must still be exactly the declared ones, and absent when nothing is declared
+            for fname in rng.sample(["args.json", "options.json"], rng.choice([1, 2])):
+                how = rng.choice(["file", "dir", "dangling-link"])
+                if how == "file":
+                    steps.append(["file", fname, realrun.b64(b'[1, "stale"]' if fname == "args.json" else b'{"stale": 2}')])
+                elif how == "dir":
+                    steps.append(["file", fname + "/inner.txt", realrun.b64(b"x")])
+                else:
+                    steps.append(["symlink", fname, "nowhere-%d" % rng.randrange(1000)])
         extra = rng.choice([None, None, None, "close1", "close2", "bg"])
         if extra == "close1":
             steps.append(["close", 1])
@@ -203,8 +215,11 @@ def eval_case(case):
                     p = os.path.join(d, fname)
                     bump("c10_json_checks")
                     if not decl:
-                        if os.path.exists(p):
+                        if os.path.lexists(p):
                             out["violations"].append({"key": "C10:json-record-present-for-empty", "msg": "%s: %s exists although nothing was declared" % (tid, fname), "witness": W})
+                        continue
+                    if os.path.isdir(p) or os.path.islink(p):
+                        out["violations"].append({"key": "C10:json-record-unreadable", "msg": "%s: %s is a %s, not a record of %r" % (tid, fname, "link" if os.path.islink(p) else "directory", decl), "witness": W})
                         continue
                     if not os.path.exists(p):
                         out["violations"].append({"key": "C10:json-record-missing", "msg": "%s: %s missing (declared %r)" % (tid, fname, decl), "witness": W})
